@@ -27,8 +27,12 @@ Fixpoint value_eqb (a b : value) {struct a} : bool :=
   | _, _ => false
   end.
 
-(* the context's data is {x: "X"}: the only template the harness uses is "{{ .x }}" *)
-Definition render_x (s : string) : string := if String.eqb s "{{ .x }}" then "X"%string else s.
+(* the context's data is {x: "X"}: the templates the harness uses are plain text followed by the one
+   action "{{ .x }}" (the plain text may itself contain braces) *)
+Definition render_x (s : string) : string :=
+  let n := String.length s in
+  if (Nat.leb 8 n && String.eqb (substring (n - 8) 8 s) "{{ .x }}")%bool
+  then (substring 0 (n - 8) s ++ "X")%string else s.
 
 Inductive case :=
 | CCloneValue (v : value) (obs : value).       (* a configured action as a value; what CloneWith returned *)
